@@ -4,8 +4,8 @@ Import ListNotations.
 Require Import MV.C14.Model MV.C14.Spec MV.C14.Proofs MV.C14.ProofsMoves MV.C14.ProofsStep.
 Open Scope N_scope.
 
-(* the simulation is proved for every operation except WithExtra (exercised on the real code only) *)
-Definition op_core (o : op) : bool := match o with WithExtra _ _ | IntoStdCow _ => false | _ => op_wf o end.
+(* well-formed programs: every capacity / length handed in is one a Vec can have *)
+Definition op_core (o : op) : bool := op_wf o.
 Definition core (p : list op) : bool := forallb op_core p.
 
 Lemma sim_step tr m s o : Rst m s -> op_core o = true -> sim tr m s o.
@@ -18,7 +18,9 @@ Proof.
   - apply sim_Deref; auto.
   - apply sim_Cmp; auto.
   - apply sim_IntoOwned; auto.
+  - apply sim_IntoStdCow; auto.
   - apply sim_Drop; auto.
+  - apply sim_WithExtra; auto.
   - apply sim_ArcNew; auto. apply N.leb_le; auto.
   - apply sim_ArcClone; auto.
   - apply sim_ArcDrop; auto.
@@ -50,14 +52,14 @@ Proof.
 Qed.
 
 Theorem run_sim tr p : forall m s, Rst m s -> core p = true ->
-  fst (run tr m p) = fst (srun tr s p) /\ Rst (snd (run tr m p)) (snd (srun tr s p)).
+  fst (run tr m p) = fst (srun tr s p) /\ Rst (snd (run tr m p)) (snd (srun tr s p)) /\ (Cnt tr m -> Cnt tr (snd (run tr m p))).
 Proof.
   induction p as [|o p IH]; intros m s HR H; simpl in *; auto.
   apply andb_prop in H as [Ho Hp]. pose proof (sim_step tr m s o HR Ho) as Hs. unfold sim in Hs.
   destruct (step tr m o) as [r m1]. destruct (sstep tr s o) as [[[r' da] de] s1].
-  destruct Hs as (-> & <- & <- & HR1). specialize (IH m1 s1 HR1 Hp).
-  destruct (run tr m1 p) as [os m2]. destruct (srun tr s1 p) as [os' s2]. simpl in *. destruct IH as [-> HR2].
-  split; auto. rewrite (strongs_eq m1 s1 HR1). reflexivity.
+  destruct Hs as (-> & <- & <- & HC1 & HR1). specialize (IH m1 s1 HR1 Hp).
+  destruct (run tr m1 p) as [os m2]. destruct (srun tr s1 p) as [os' s2]. simpl in *. destruct IH as (-> & HR2 & HC2).
+  split; [|split; auto]. rewrite (strongs_eq m1 s1 HR1). reflexivity.
 Qed.
 
 Theorem model_meets_spec tr p : core p = true -> fst (run tr init p) = spec_outs tr p.
@@ -94,7 +96,7 @@ Theorem balanced tr p : core p = true -> let m := snd (run tr init p) in all_con
   (forall a x, nth_error (allocs m) a = Some x -> a_freed x = true) /\
   (forall r x, nth_error (arcs m) r = Some x -> r_strong x = r_caller x /\ r_freed x = (r_caller x =? 0)).
 Proof.
-  intros H m Hc. destruct (run_sim tr p init sinit Rst_init H) as [_ HR]. fold m in HR.
+  intros H m Hc. destruct (run_sim tr p init sinit Rst_init H) as (_ & HR & _). fold m in HR.
   set (s := snd (srun tr sinit p)) in *. split.
   - intros a x Ex. pose proof (R_own _ _ _ _ HR a x Ex) as Ho. destruct (a_freed x); auto.
     unfold owners in Ho. rewrite (countp_all_false _ _ None) in Ho; [discriminate|]. intros i. rewrite Hc. reflexivity.
@@ -104,6 +106,37 @@ Proof.
     { unfold holders. rewrite (countp_all_false _ _ None); auto. intros i. pose proof (R_h _ _ _ _ HR i) as Hh.
       rewrite Hc in Hh. destruct (nth i (s_store s) None); [contradiction|reflexivity]. }
     rewrite H0, N.add_0_r in S. split; [congruence|]. rewrite F, S, C. reflexivity.
+Qed.
+
+(* counter form: the sum of the observed live-block deltas is the number of Arcs the caller still
+   holds, the sum of the live-element deltas is the number of elements inside those Arcs *)
+Definition da_of (o : out) : Z := snd (fst (fst o)).
+Definition de_of (o : out) : Z := snd (fst o).
+
+Lemma run_telescope tr p : forall m,
+  wsum da_of (fst (run tr m p)) = (nalloc (snd (run tr m p)) - nalloc m)%Z /\
+  wsum de_of (fst (run tr m p)) = (nelem (snd (run tr m p)) - nelem m)%Z.
+Proof.
+  induction p as [|o p IH]; intros m; simpl. { split; lia. }
+  destruct (step tr m o) as [r m1]. specialize (IH m1). destruct (run tr m1 p) as [os m2]. simpl in *.
+  unfold da_of at 1, de_of at 1. simpl. destruct IH as [-> ->]. split; lia.
+Qed.
+
+Definition held (x : arc) : Z := if r_caller x =? 0 then 0%Z else 1%Z.
+Definition held_elems (tr : bool) (x : arc) : Z := if r_caller x =? 0 then 0%Z else ec tr (len (r_data x)).
+
+Theorem balanced_counters tr p : core p = true -> let m := snd (run tr init p) in all_consumed m ->
+  wsum da_of (fst (run tr init p)) = wsum held (arcs m) /\
+  wsum de_of (fst (run tr init p)) = wsum (held_elems tr) (arcs m).
+Proof.
+  intros H m Hc. destruct (balanced tr p H Hc) as [Ba Br]. fold m in Ba, Br.
+  destruct (run_sim tr p init sinit Rst_init H) as (_ & _ & HC).
+  assert (C0 : Cnt tr init) by (split; reflexivity). specialize (HC C0). fold m in HC. destruct HC as [Ca Ce].
+  destruct (run_telescope tr p init) as [Ta Te]. fold m in Ta, Te. simpl in Ta, Te. rewrite Ta, Te, Ca, Ce, !Z.sub_0_r.
+  rewrite (wsum_zero fa (allocs m)), (wsum_zero (ea tr) (allocs m)).
+  - split; simpl; apply wsum_ext; intros i x E; destruct (Br i x E) as [_ F]; unfold fr, er, held, held_elems; rewrite F; reflexivity.
+  - intros i x E. unfold ea. rewrite (Ba i x E). reflexivity.
+  - intros i x E. unfold fa. rewrite (Ba i x E). reflexivity.
 Qed.
 
 (* the freed checks of the model are not vacuous: without move semantics they fire *)
